@@ -641,6 +641,27 @@ def main():
             else:
                 ungated += 1   # property facts (SetProp/EnableRule/SetParents) are not add operations; the model reproduces the growth
         over += 1 if max(i["sizes"] + [0]) == mx and mx > 0 else 0
+    # (4f') the maximum in force is the one configured when the add arrives: a location living on the default control
+    # (no control of its own), used once, then DefaultControl.MaxFacts changed in place (what /api/sys/loccontrol does)
+    dcases = [{"kind": "c20.defaultcap", "first_max": a, "then_max": b, "n": n, "state": st}
+              for (a, b, n) in ((50, 4, 10), (3, 8, 12), (1000, 2, 5), (6, 6, 9)) for st in ("indexed", "linear")]
+    dimpl = run_cases(drv, dcases, jobs=4, per_chunk=1)
+    dmodel = run_cases(mdl, [{"kind": "c20.capacity", "max": c["then_max"], "state": c["state"],
+                              "ops": model_cap_ops([{"op": "addFact", "id": "f0", "v": "0"}] +
+                                                   [{"op": "addRule" if k % 2 == 0 else "addFact", "id": "%s%d" % ("r" if k % 2 == 0 else "f", k), "v": "1"} for k in range(1, c["n"] + 1)])[0]}
+                             for c in dcases])
+    for c, i, m in zip(dcases, dimpl, dmodel):
+        ck.count(c)
+        if "err" in i or "err" in m or i.get("crash"):
+            ck.violation("default-control capacity case failed: impl=%s model=%s" % (canon(i)[:200], canon(m)[:200]), {"case": c, "impl": i, "model": m}, tag="defaultcap")
+            continue
+        want_size = m["sizes"][-1]
+        want_ref = m["outs"].count("capacity")
+        if i["size"] != want_size or i["refused"] != want_ref or i["other"]:
+            ck.violation("a location on the default control, used once under MaxFacts=%d, then DefaultControl.MaxFacts set to %d in place: %d further adds end with %d facts and %d refusals; the capacity model under the maximum in force (%d) says %d facts and %d refusals"
+                         % (c["first_max"], c["then_max"], c["n"], i["size"], i["refused"], c["then_max"], want_size, want_ref),
+                         {"case": c, "impl": i, "model": {"size": want_size, "refused": want_ref}}, tag="defaultcap")
+    dist["capacity_default_control_cases"] = len(dcases)
     dist["capacity_histories"] = len(cases)
     dist["capacity_disagree"] = bad
     dist["capacity_refusals_seen"] = refused
